@@ -130,6 +130,9 @@ func genK(r *mon.Rand, d int, k kind) *node {
 		kk := []kind{kBool, kNum, kStr}[r.Intn(3)]
 		return &node{op: r.Str("==", "!="), l: genK(r, d-1, kk), r: genK(r, d-1, kk), k: kBool}
 	case 3, 4:
+		if r.Chance(4) { // ordering over strings (like kinds)
+			return &node{op: r.Str("<", "<=", ">", ">="), l: genK(r, d-1, kStr), r: genK(r, d-1, kStr), k: kBool}
+		}
 		return &node{op: r.Str("<", "<=", ">", ">="), l: genK(r, d-1, kNum), r: genK(r, d-1, kNum), k: kBool}
 	case 5:
 		return &node{op: "!", l: genK(r, d-1, kBool), k: kBool}
@@ -227,6 +230,19 @@ func (n *node) eval(v *vals, st *evalState) interface{} {
 	}
 	if n.k == kStr {
 		return a.(string) + b.(string)
+	}
+	if as, ok := a.(string); ok {
+		bs := b.(string)
+		switch n.op {
+		case "<":
+			return as < bs
+		case "<=":
+			return as <= bs
+		case ">":
+			return as > bs
+		case ">=":
+			return as >= bs
+		}
 	}
 	af, bf := a.(float64), b.(float64)
 	chk := func(f float64) float64 {
